@@ -13,21 +13,21 @@ COQ_TARGETS = ['C07/Props.vo', 'C07/Corr.vo']
 PROPS = 'C07/Props.v'
 EXTRACTED = ['write_sites']
 CASE_IMPORTS = 'From V Require Import Base.FS C07.Model C07.Spec C07.Corr.\nFrom V Require C08.Model.'
-RULE = ('histories of deferred opens (modes w a r+ wb ab, re-opening a path with another mode, reads, failing opens) over '
+RULE = ('histories of deferred opens (modes w a r+ w+ wb ab w+b, re-opening a path with another mode, reads, failing opens) over '
         'a pool of names incl. literal backup names, on directories with pre-existing files and old backups, both '
         'temp-dir placements; each history is finalised, discarded, or interrupted before / inside every file-system call '
         'of write() (fault injected into shutil.move / os.remove / open as seen from vermouth.file_writer); plus real '
         'martinize2 runs (sub-processes) with chosen warning multisets x -maxwarn specs x pre-seeded outputs. '
         'non-trivial = at least one pending destination; distinct by (fs0, ops, finalisation kind)')
 ASSUMPTIONS = ['one directory; file names map to paths by parsing the #name.k# pattern (injective)',
-               'modes x, w+, a+ are not generated (write() treats a+ as replace: declared boundary, see DESIGN)',
+               'modes x and a+ are not generated (write() treats a+ as replace: declared boundary, see DESIGN)',
                'an interrupt inside shutil.move across devices is represented by "destination holds a prefix of the data, temp still there"',
                'mkstemp returns a fresh path outside the user directory (temporary files are a separate store in the model)']
 TRUSTED = ['fault-injection shim in vlib/c07.py (patches names in vermouth.file_writer only for the duration of one call)',
            'CLI records are parsed from the console log lines "LEVEL - type - message"']
 
 POOL = ['a.txt', 'b.itp', 'c']
-MODES = ['w', 'a', 'r+', 'wb', 'ab', 'w', 'a']
+MODES = ['w', 'a', 'r+', 'wb', 'ab', 'w', 'a', 'w+', 'w+b']
 
 
 def name_to_path(name, table):
